@@ -9,6 +9,7 @@ import (
 	"go/token"
 	"go/types"
 	"math/big"
+	"sort"
 	"strconv"
 	"strings"
 
@@ -247,17 +248,34 @@ func (c *evalCtx) lookupIdent(name string) (TVal, bool) {
 	case "nil":
 		return untyped(big.NewInt(0)), true
 	}
-	// locals by name (loop invariants): current cell content
+	// locals by name (loop invariants): current cell content. When several
+	// locals share the name (hidden range variables, shadowing), the one
+	// declared last in block order is meant; name$k selects the k-th before it.
 	if c.fr != nil {
-		var best *ssa.Alloc
-		for a := range c.st.cells {
-			if a.Parent() == c.fr.fn && a.Comment == name {
-				if best == nil || a.Pos() > best.Pos() {
-					best = a
-				}
+		base, skip := name, 0
+		if i := strings.LastIndex(name, "$"); i > 0 {
+			if k, err := strconv.Atoi(name[i+1:]); err == nil {
+				base, skip = name[:i], k
 			}
 		}
-		if best != nil {
+		var cands []*ssa.Alloc
+		for a := range c.st.cells {
+			if a.Parent() == c.fr.fn && a.Comment == base && !c.ex.invLoopBlocks[a.Block()] {
+				cands = append(cands, a)
+			}
+		}
+		order := func(a *ssa.Alloc) int {
+			b := a.Block()
+			for i, in := range b.Instrs {
+				if in == a {
+					return b.Index*100000 + i
+				}
+			}
+			return b.Index * 100000
+		}
+		sort.Slice(cands, func(i, j int) bool { return order(cands[i]) > order(cands[j]) })
+		if skip < len(cands) {
+			best := cands[skip]
 			t := best.Type().Underlying().(*types.Pointer).Elem()
 			return TVal{V: c.st.cells[best], T: t, A: &Addr{Kind: ACell, Cell: best, ArrLen: -1}}, true
 		}
@@ -439,6 +457,9 @@ func (c *evalCtx) evalSel(x *ESel) TVal {
 	var addr *Addr
 	if base.A != nil {
 		addr = base.A.ext(PathEl{Field: fi})
+		if ft := st.Field(fi).Type(); kindOf(ft) == KOpaque {
+			return TVal{V: &PtrI{addr}, T: types.NewPointer(ft), A: addr}
+		}
 	}
 	return TVal{V: base.V.(*Agg).F[fi], T: st.Field(fi).Type(), A: addr}
 }
